@@ -201,6 +201,13 @@ func init() {
 				r.OK(fk, "every successful settlement records the current indices", "every success exit after the calculation passes SetDelegation(updated history)", r.P(set))
 			}
 			r.Check(fa.Dominates(set, pay), fk, "history persisted before payout", "SetDelegation dominates the transfer", "the payout can happen without the updated history being persisted", r.P(pay))
+			// the converse: what was recorded as settled is paid (the transfer of an empty entitlement is a no-op of the
+			// bank, not a reason to skip the call)
+			if trail := fa.MustFollow(set, []ssa.Instruction{pay}); trail != nil {
+				r.Bad(fk, "recorded settlement is paid", "ClaimDelegationRewards can return successfully after storing the current indices in the delegation without paying the calculated entitlement: the rewards stay in the pool and the position can never claim them", trail, r.P(set))
+			} else {
+				r.OK(fk, "recorded settlement is paid", "every success path after SetDelegation(updated history) passes the transfer from the rewards pool", r.P(pay))
+			}
 			sv := CallsTo(fn, "keeper.Keeper.ClaimValidatorRewards")
 			okV := false
 			for _, c := range sv {
@@ -282,6 +289,28 @@ func init() {
 						r.Bad(fk, "indices persisted => coins forwarded", "a success path persists increased reward indices without moving the coins into the rewards pool (entitlements exceed the pool)", trail, r.P(sv))
 					} else {
 						r.OK(fk, "indices persisted => coins forwarded", "every success path after SetValidator passes the transfer", r.P(sends[0]))
+					}
+					// the converse: coins are forwarded without persisted indices only when there is nobody to index them to
+					// (the reward-weight sum of the validator is zero); otherwise the coins sit in the pool unclaimable
+					for _, send := range sends {
+						if fa.MustPassThrough(nil, send, []ssa.Instruction{sv}) == nil {
+							continue
+						}
+						zero := false
+						for _, g := range fa.GuardsOf(send) {
+							if g.Pos && g.Cond.IsCall("math.LegacyDec.IsZero") {
+								zero = true
+							}
+							// no delegator shares on the validator at all
+							if g.Pos && g.Cond.Op == "binop" && g.Cond.Name == "==" && len(g.Cond.Args) == 2 && g.Cond.Args[1].Op == "const" && g.Cond.Args[1].Name == "0" && strings.Contains(g.Cond.Args[0].String(), "TotalDelegatorShares") {
+								zero = true
+							}
+						}
+						if zero {
+							r.OK(fk, "coins forwarded => indices persisted", "forward without index update only under `weight sum is zero` / `no delegator shares`", r.P(send))
+						} else {
+							r.Bad(fk, "coins forwarded => indices persisted", "the coins can be moved into the rewards pool on a path that did not persist the increased reward indices (and is not one of the `nobody to index to` exits: no delegator shares, or a zero weight sum): the pool holds rewards that no position can claim", fa.MustPassThrough(nil, send, []ssa.Instruction{sv}), r.P(send))
+						}
 					}
 					// increments derive from the coins parameter
 					n := 0
